@@ -215,6 +215,185 @@ pub fn check_unclosed_location(name: &str, text: &str, opener: usize, dir: &Path
     out
 }
 
+
+/// Multi-file project: `main.circom` (given on the command line) includes `lib.circom`.
+/// Findings of main talk about definitions of lib and the other way round.
+pub const PROJECT_MAIN: &str = "pragma circom 2.0.0;\ninclude \"lib.circom\";\n\ntemplate W(n) {\n    signal input in;\n    signal output out;\n    signal output aux;\n    component t = Two();\n    t.in <== in;\n    component b = Bits(254);\n    b.in <== in;\n    component ks[2];\n    for (var i = 0; i < 2; i++) {\n        ks[i] = Two();\n        ks[i].in <== in;\n    }\n    var x = h(n);\n    var in2 = x;\n    aux <-- in2 * in;\n    out <== t.o1;\n}\n\ncomponent main = W(2);\n";
+pub const PROJECT_LIB: &str = "pragma circom 2.0.0;\n\nfunction h(a) {\n    var unused = 3;\n    return a * 2;\n}\n\ntemplate Two() {\n    signal input in;\n    signal output o1;\n    signal output o2;\n    o1 <== in;\n    o2 <-- in;\n}\n\ntemplate Bits(n) {\n    signal input in;\n    signal output out[n];\n    var lc = 0;\n    for (var i = 0; i < n; i++) {\n        out[i] <-- (in >> i) & 1;\n        out[i] * (out[i] - 1) === 0;\n        lc += out[i] * 2 ** i;\n    }\n    lc === in;\n}\n";
+
+/// Prefixes that shift every offset (and line) of the file they are put in front of.
+pub const PREFIXES: [&str; 4] = ["", "/* é */\n", "/* 漢字漢字漢字漢字漢字漢字漢字漢字漢字漢字漢字漢字漢字漢字漢字漢字 */\n\n\n", "// ü ü ü ü ü ü ü ü ü ü ü ü ü ü ü ü ü ü ü ü ü ü ü ü ü ü ü ü ü ü ü ü ü ü ü ü ü ü ü ü ü ü ü ü ü ü ü ü ü ü ü ü ü ü ü ü ü ü ü ü ü ü ü ü\n/* x\n\n\n\n\n\n\n\n\n\n\n\n\n\n\n\n\n\n\n\n\n\n\n\n\n\n\n\n\n\n\n\n\n\n\n\n\n\n\n\n\n\n*/\n"];
+
+pub struct ProjectAnalysis {
+    pub findings: Vec<Finding>,
+    pub invalid: Vec<String>,
+}
+
+pub fn analyse_project(main: &str, lib: &str, dir: &Path) -> Result<ProjectAnalysis, String> {
+    use crate::sut::runner;
+    let files = runner::write_project(dir, &[("main.circom", main), ("lib.circom", lib)]);
+    let mut loaded = runner::load(&files[..1], &[], program_structure::constants::Curve::Bn254).map_err(|p| p.signature())?;
+    let collected = runner::analyze_all(&mut loaded).map_err(|p| p.signature())?;
+    let flib = loaded.runner.file_library().clone();
+    let mut findings = Vec::new();
+    let mut invalid = Vec::new();
+    for r in loaded.parse_reports.iter().chain(collected.reports.iter()) {
+        let f = runner::finding_of(r, &flib);
+        for (kind, labels) in [("primary", &f.primary), ("secondary", &f.secondary)] {
+            for l in labels {
+                if l.text.is_none() {
+                    invalid.push(format!("{} {kind} label {}..{} in {}: not a valid range of that file", f.short(), l.start, l.end, l.file));
+                }
+            }
+        }
+        findings.push(f);
+    }
+    Ok(ProjectAnalysis { findings, invalid })
+}
+
+fn base_name(p: &str) -> String {
+    p.trim_start_matches("file://").rsplit('/').next().unwrap_or(p).to_string()
+}
+
+/// Checks of one multi-file variant: label validity, constructs under primary *and* secondary
+/// labels, and - against `reference`, the position-independent form of the findings of the
+/// undecorated project - that shifting either file leaves every labelled text unchanged (a label
+/// that names the wrong file, or a range of another file, fails this).
+pub fn check_project(main: &str, lib: &str, reference: Option<&Vec<String>>, binary: bool, dir: &Path, case: &Value) -> (Vec<Violation>, Vec<String>, usize) {
+    let mut out = Vec::new();
+    let a = match analyse_project(main, lib, dir) {
+        Ok(a) => a,
+        Err(e) => return (vec![Violation { signature: e, what: "analysis panicked".into(), case: case.clone(), expected: "completes".into(), observed: main.to_string() }], Vec::new(), 0),
+    };
+    let labels: usize = a.findings.iter().map(|f| f.primary.len() + f.secondary.len()).sum();
+    out.extend(check_findings("project", main, &a.findings, &a.invalid, case));
+    for f in &a.findings {
+        for l in &f.secondary {
+            let Some(raw) = &l.text else { continue };
+            let t = squeeze(raw);
+            if t.is_empty() || !is_construct(&t) {
+                out.push(Violation {
+                    signature: format!("secondary-not-a-construct/{}", f.id),
+                    what: format!("multi-file project: the secondary label `{}` of `{}` covers `{}` in {}, which is not a statement, expression, declaration or parameter list", l.message, f.short(), crate::infra::truncate(raw, 80), base_name(&l.file)),
+                    case: case.clone(),
+                    expected: "a complete construct under the label".into(),
+                    observed: format!("file {} bytes {}..{}", l.file, l.start, l.end),
+                });
+            }
+        }
+    }
+    // Labelled texts are compared with comments and all white space removed: a decoration may sit
+    // inside a labelled construct.
+    let dense = |f: &Finding| super::decor::by_text(f).split_whitespace().collect::<String>();
+    let form = super::decor::sorted(a.findings.iter().map(|f| format!("{} {}", dense(f), super::decor::sorted(f.primary.iter().chain(f.secondary.iter()).map(|l| base_name(&l.file)).collect()).join(","))).collect());
+    if let Some(reference) = reference {
+        if *reference != form {
+            let missing: Vec<&String> = reference.iter().filter(|k| !form.contains(k)).collect();
+            let extra: Vec<&String> = form.iter().filter(|k| !reference.contains(k)).collect();
+            let id = extra.first().or(missing.first()).map(|s| s.split('[').next().unwrap_or("")).unwrap_or("");
+            out.push(Violation {
+                signature: format!("project-shift-changes-labelled-text/{id}"),
+                what: "multi-file project: putting a comment in front of one of the files changes the text a label covers (or the file it names)".into(),
+                case: case.clone(),
+                expected: format!("{missing:?}"),
+                observed: format!("{extra:?}"),
+            });
+        }
+    }
+    if binary {
+        let text_of = |file: &str| if base_name(file) == "lib.circom" { lib } else { main };
+        let sarif_file = dir.join("o.sarif");
+        let run = run_bin(&BinOpts {
+            args: vec!["main.circom".into(), "--level".into(), "info".into(), "--verbose".into(), "--sarif-file".into(), sarif_file.display().to_string()],
+            cwd: dir,
+            hash_seed: Some(1),
+            timeout: Duration::from_secs(60),
+            sarif_file: Some(sarif_file),
+            mem_limit: None,
+        });
+        // Findings the binary displays: those with a label in the user's file (or none at all).
+        let displayed: Vec<&Finding> = a.findings.iter().filter(|f| f.primary.is_empty() || f.primary.iter().any(|l| l.user_input)).collect();
+        let mut expected: Vec<String> = displayed
+            .iter()
+            .filter_map(|f| f.primary.first().map(|l| (f, l)))
+            .map(|(f, l)| {
+                let (line, col) = line_col(text_of(&l.file), l.start);
+                format!("{}@{}:{line}:{col}", f.id, base_name(&l.file))
+            })
+            .collect();
+        expected.sort();
+        let mut shown: Vec<String> = run
+            .diagnostics
+            .iter()
+            .filter_map(|d| d.location.as_ref().map(|(p, l, c)| format!("{}@{}:{l}:{c}", d.id.clone().unwrap_or_default(), base_name(p))))
+            .collect();
+        shown.sort();
+        if expected != shown {
+            out.push(Violation {
+                signature: "project-displayed-line-column".into(),
+                what: "multi-file project: the file:line:column shown to the user is not that of the labelled bytes".into(),
+                case: case.clone(),
+                expected: format!("{expected:?}"),
+                observed: format!("{shown:?}"),
+            });
+        }
+        if let Some(s) = &run.sarif {
+            let (results, _) = sarif_results(s);
+            for (what, pick_labels, pick_locs) in [
+                ("primary", (|f: &Finding| f.primary.clone()) as fn(&Finding) -> Vec<crate::sut::runner::LabelInfo>, (|r: &crate::sut::bin::SarifResult| r.locations.clone()) as fn(&crate::sut::bin::SarifResult) -> Vec<(String, u64, u64, u64, u64, String)>),
+                ("related", |f: &Finding| f.secondary.clone(), |r: &crate::sut::bin::SarifResult| r.related.clone()),
+            ] {
+                let mut exp: Vec<String> = displayed
+                    .iter()
+                    .flat_map(|f| pick_labels(f).into_iter().map(move |l| (f.id.clone(), l)))
+                    .map(|(id, l)| {
+                        let t = text_of(&l.file);
+                        let (sl, sc) = line_col(t, l.start);
+                        let (el, ec) = line_col(t, l.end);
+                        format!("{id}@{}:{sl}:{sc}-{el}:{ec}", base_name(&l.file))
+                    })
+                    .collect();
+                exp.sort();
+                let mut got: Vec<String> = results.iter().flat_map(|r| pick_locs(r).into_iter().map(move |l| format!("{}@{}:{}:{}-{}:{}", r.rule_id, base_name(&l.0), l.1, l.2, l.3, l.4))).collect();
+                got.sort();
+                if exp != got {
+                    out.push(Violation {
+                        signature: format!("project-sarif-{what}-region"),
+                        what: format!("multi-file project: SARIF {what} locations are not the file and region of the labelled bytes"),
+                        case: case.clone(),
+                        expected: format!("{exp:?}"),
+                        observed: format!("{got:?}"),
+                    });
+                }
+            }
+        } else if !displayed.is_empty() {
+            out.push(Violation {
+                signature: "project-sarif-missing".into(),
+                what: "multi-file project: no SARIF file although findings exist".into(),
+                case: case.clone(),
+                expected: "a SARIF file".into(),
+                observed: crate::infra::truncate(&run.stdout, 300),
+            });
+        }
+    }
+    (out, form, labels)
+}
+
+/// Text of the two files of a project case: prefixes, then an optional decoration in one file.
+pub fn project_texts(case: &Value) -> (String, String) {
+    let pm = PREFIXES[case["main_prefix"].as_u64().unwrap_or(0) as usize % PREFIXES.len()];
+    let pl = PREFIXES[case["lib_prefix"].as_u64().unwrap_or(0) as usize % PREFIXES.len()];
+    let mut main = PROJECT_MAIN.to_string();
+    let mut lib = PROJECT_LIB.to_string();
+    if let (Some(file), Some(gap), Some(deco)) = (case["file"].as_str(), case["gap"].as_u64(), case["decoration"].as_u64()) {
+        let target = if file == "lib" { &mut lib } else { &mut main };
+        if let Some(at) = gaps(target).get(gap as usize) {
+            *target = insert(target, *at, DECORATIONS[deco as usize % DECORATIONS.len()]);
+        }
+    }
+    (format!("{pm}{main}"), format!("{pl}{lib}"))
+}
+
 pub fn variant_text(text: &str, gap: usize, deco: usize) -> Option<String> {
     let at = *gaps(text).get(gap)?;
     Some(insert(text, at, DECORATIONS[deco]))
@@ -228,7 +407,11 @@ pub fn run(run: &Run) {
          every token gap (every 2nd in quick), plus: all line ends CRLF, a decoration in every gap at \
          once, a multi-byte character inside a log string; every label checked for validity and for \
          covering a complete construct; binary line:col and SARIF regions recomputed from the original \
-         bytes on the base files and on 1 variant in 25; non-trivial = variant with at least one label",
+         bytes on the base files and on 1 variant in 25; a two-file project (main includes lib; findings \
+         of one file talking about definitions of the other) under 4 x 4 offset-shifting prefixes and \
+         comment decorations at every gap of either file: validity, constructs under primary and \
+         secondary labels, invariance of labelled texts and files, binary file:line:col and SARIF \
+         primary/related regions; non-trivial = variant with at least one label",
     );
     let root = work_dir("c04");
     let files = corpus();
@@ -307,6 +490,50 @@ pub fn run(run: &Run) {
             }
         }
     }
+    // Multi-file project: every pair of prefixes (shifting main and lib independently), and a
+    // comment decoration at every gap of either file under two prefixes of the other file.
+    {
+        let dir = root.join("project-base");
+        let base_case = json!({"kind": "project", "main_prefix": 0, "lib_prefix": 0});
+        let (vs, reference, labels) = check_project(PROJECT_MAIN, PROJECT_LIB, None, true, &dir, &base_case);
+        run.eval(1);
+        run.nontrivial(1);
+        run.add_extra_count("labels_checked", labels as u64);
+        run.violations(vs);
+        let mut cases: Vec<Value> = Vec::new();
+        for pm in 0..PREFIXES.len() {
+            for pl in 0..PREFIXES.len() {
+                cases.push(json!({"kind": "project", "main_prefix": pm, "lib_prefix": pl}));
+            }
+        }
+        for (file, text) in [("main", PROJECT_MAIN), ("lib", PROJECT_LIB)] {
+            for gi in (0..gaps(text).len()).step_by(step) {
+                for di in [0usize, 1, 3] {
+                    for other in [0usize, 2] {
+                        let (pm, pl) = if file == "main" { (0, other) } else { (other, 0) };
+                        cases.push(json!({"kind": "project", "main_prefix": pm, "lib_prefix": pl, "file": file, "gap": gi, "decoration": di}));
+                    }
+                }
+            }
+        }
+        run.set_extra("project_variants", json!(cases.len()));
+        par_each(&cases, |i, case| {
+            run.watch(case);
+            let dir = root.join(format!("p{:?}", std::thread::current().id()).replace(|c: char| !c.is_ascii_alphanumeric(), ""));
+            let (main, lib) = project_texts(case);
+            let binary = case["file"].is_null() || i % 25 == 0;
+            let (vs, _, labels) = check_project(&main, &lib, Some(&reference), binary, &dir, case);
+            run.eval(1);
+            if labels > 0 {
+                run.nontrivial(1);
+            }
+            run.add_extra_count("labels_checked", labels as u64);
+            if i % 97 == 0 {
+                run.outcome(&format!("project:labels>0={}", labels > 0));
+            }
+            run.violations(vs);
+        });
+    }
     run.idle();
     let _ = std::fs::remove_dir_all(&root);
     run.assume("`complete construct` is judged by re-parsing the labelled text (comments blanked) with the real parser as a syntax oracle, or as an identifier list for parameter lists; parse errors may carry positional (zero-width) labels");
@@ -318,6 +545,13 @@ pub fn replay(case: &Value) -> Vec<Violation> {
     let Some((_, text)) = files.iter().find(|(n, _)| *n == name) else { return Vec::new() };
     let root = work_dir("c04-replay");
     let variant = match case["kind"].as_str() {
+        Some("project") => {
+            let reference = check_project(PROJECT_MAIN, PROJECT_LIB, None, false, &root, case).1;
+            let (main, lib) = project_texts(case);
+            let out = check_project(&main, &lib, Some(&reference), true, &root, case).0;
+            let _ = std::fs::remove_dir_all(&root);
+            return out;
+        }
         Some("unclosed") => {
             let prefix = case["prefix"].as_str().unwrap_or("");
             let gi = case["gap"].as_u64().unwrap_or(0) as usize;
